@@ -27,6 +27,7 @@ def run(ctx):
     repo = ctx.repo
     _flatten_order(ctx, repo)
     _labelled_columns(ctx, repo)
+    _batch_result_order(ctx, repo)
     ctx.decided += [
         'C18.a Sampler.run / run_async / sample / run_batch_async / _run_sweep_impl / _run_sweep_async_impl reach run_sweep(_async) of self with program, params and repetitions '
         'derived from their own arguments and return values derived from the hook\'s result',
@@ -672,3 +673,21 @@ def _labelled_columns(ctx, repo):
                    'values land under the wrong column labels', m.rel, c.lineno)
     if n == 0:
         raise AnalysisError('C18.i: no labelled data frame construction found in cirq.work.sampler')
+
+
+def _batch_result_order(ctx, repo):
+    """C18.j - run_batch returns one result list per program, in the order of the programs: the batching code never permutes them."""
+    ctx.decided.append('C18.j ProcessorSampler.run_batch_async groups consecutive programs only: nothing sorts or permutes the program / sweep / repetition lists, whose order is the order '
+                       'of the returned results')
+    ctx.rule('C18.j', 'batch results in program order: run_batch_async of the engine samplers contains no sorted / reversed / sort / argsort / shuffle call and does not rebuild the program '
+             'list through an index permutation', floor=1, style='TNT')
+    m = repo.module('cirq-google/cirq_google/engine/processor_sampler.py')
+    n = 0
+    for fn in [f for f in ast.walk(m.tree) if isinstance(f, (ast.FunctionDef, ast.AsyncFunctionDef)) and f.name in ('run_batch_async', 'run_batch')]:
+        n += 1
+        bad = [c for c in ast.walk(fn) if isinstance(c, ast.Call) and (call_name(c) or '').split('.')[-1] in ('sorted', 'reversed', 'sort', 'argsort', 'shuffle', 'permutation')]
+        ctx.ob('C18.j', f'cirq_google.engine.processor_sampler.{fn.name}:no-permutation', not bad, '' if not bad else
+               f'`{ast.unparse(bad[0])[:70]}` re-orders the programs of a batch; the results are appended batch by batch and returned as if they were in the caller\'s order, so result i belongs '
+               'to another program', m.rel, bad[0].lineno if bad else fn.lineno)
+    if n == 0:
+        raise AnalysisError('C18.j: run_batch_async vanished')
